@@ -45,6 +45,8 @@ pub enum QOp {
     Clone,
     /// observe: build a clone and compare with the model
     Snapshot,
+    /// `dst.clone_from(&builder)` into an existing builder holding this many symbols; continue on `dst`
+    CloneFrom(usize),
 }
 
 #[derive(Clone, Debug, PartialEq, Serialize, Deserialize)]
@@ -126,6 +128,7 @@ pub fn gen_case(run_seed: u64, _tier: Tier) -> QvbCase {
             }
             2 => QOp::Clone,
             3 => QOp::Snapshot,
+            4 if rng.bool() => QOp::CloneFrom(*rng.pick(&[0usize, 1, 255, 256, 257, 300, 512, 513, 700, 1100])),
             _ => QOp::Push(rng.below(256) as u8),
         })
         .collect();
@@ -207,6 +210,42 @@ fn observe(qv: &QVector, m: &[u8], at: &str, out: &mut RunOut, digest: &mut Dige
             }
         }
         Err(msg) => out.violate(sig("iter", panic_kind(&msg), "general"), format!("{at}: iter() panicked: {msg}")),
+    }
+    // count(), last() and size_hint() of an iterator advanced by exactly k symbols (k = len: consumed, not over-polled)
+    for k in [0usize, 1, n / 2, n.saturating_sub(1), n, n + 1] {
+        let r = catch(|| {
+            fn adv_by<I: Iterator>(mut it: I, k: usize) -> I {
+                for _ in 0..k {
+                    it.next();
+                }
+                it
+            }
+            let adv = |it| adv_by(it, k);
+            let adv_owned = |it| adv_by(it, k);
+            (
+                adv(qv.iter()).last(),
+                adv(qv.iter()).count(),
+                adv(qv.iter()).size_hint(),
+                adv_owned(qv.clone().into_iter()).last(),
+                adv_owned(qv.clone().into_iter()).count(),
+            )
+        });
+        let rem = n.saturating_sub(k);
+        let e_last = if rem > 0 { m.last().copied() } else { None };
+        match r {
+            Ok((l, c, (lo, hi), lo_, co)) => {
+                if l != e_last || lo_ != e_last {
+                    out.violate(sig("iter_last", "wrong_value", "general"), format!("{at}: after {k} x next() over {n} symbols last() returned {l:?} (borrowing) / {lo_:?} (consuming), the pushed values give {e_last:?}"));
+                }
+                if c != rem || co != rem {
+                    out.violate(sig("iter_count", "wrong_value", "general"), format!("{at}: after {k} x next() over {n} symbols count() returned {c} (borrowing) / {co} (consuming), {rem} symbols are left"));
+                }
+                if lo > rem || hi.map_or(false, |h| h < rem) {
+                    out.violate(sig("iter_size_hint", "wrong_value", "general"), format!("{at}: after {k} x next() over {n} symbols size_hint() returned ({lo}, {hi:?}), {rem} symbols are left"));
+                }
+            }
+            Err(msg) => out.violate(sig("iter_last", panic_kind(&msg), "general"), format!("{at}: last()/count()/size_hint() after {k} x next() over {n} symbols panicked: {msg}")),
+        }
     }
     // `for x in &qv` (IntoIterator for &QVector), bounded in case it does not end
     match catch(|| (&*qv).into_iter().take(n + 64).collect::<Vec<u8>>()) {
@@ -396,6 +435,11 @@ pub fn exec(case: &QvbCase) -> RunOut {
                     y = z;
                 }
                 QOp::Snapshot => {}
+                QOp::CloneFrom(k) => {
+                    let mut dst: QVectorBuilder = (0..*k).map(|i| (i % 4) as u8 ^ 1).collect();
+                    dst.clone_from(&y);
+                    y = dst;
+                }
             }
             y
         });
@@ -421,6 +465,10 @@ pub fn exec(case: &QvbCase) -> RunOut {
             QOp::Clone => {
                 out.count("op.clone", 1);
                 fp.u64(3);
+            }
+            QOp::CloneFrom(_) => {
+                out.count("op.clone_from", 1);
+                fp.u64(5);
             }
             QOp::Snapshot => {
                 out.count("op.snapshot", 1);
